@@ -2,7 +2,7 @@
 from __future__ import annotations
 
 from harness.framework import Violation
-from harness.seqprop import indep_fall, SeqProp, slots_of
+from harness.seqprop import indep_phase_jump, indep_rise, indep_fall, SeqProp, slots_of
 from pulser import Pulse
 from pulser.sequence._schedule import _ChannelSchedule
 
@@ -48,7 +48,7 @@ class C10(SeqProp):
                         break
                 if lps is not None and float(lps.type.phase) != float(new.type.phase):
                     ie = cs.in_eom_mode()
-                    need = max(ch.phase_jump_time, 2 * ch.rise_time * ie) + indep_fall(lps.type, ch, ie)
+                    need = max(indep_phase_jump(ch), 2 * indep_rise(ch) * ie) + indep_fall(lps.type, ch, ie)
                     gap = new.ti - lps.tf
                     if gap < need:
                         bad(
